@@ -153,6 +153,28 @@ func honestTampered(dir, mut string) *honestRun {
 	return h
 }
 
+func checkHonest(cs, cr string) {
+	var h *honestRun
+	x := vrt.Run(cfg(), nil, func() { h = honest(cs, cr) })
+	res.Eval()
+	rp := map[string]any{"honest": true, "code_s": cs, "code_r": cr}
+	same := cs == cr
+	near := "unrelated"
+	if !same && strings.EqualFold(strings.TrimSpace(cs), strings.TrimSpace(cr)) {
+		near = "differ-in-case-or-white-space"
+	}
+	if x.Outcome != "ok" {
+		res.Violate("hang", "c08/auth", map[string]any{"position": "honest", "outcome": x.Outcome}, fmt.Sprintf("honest %q/%q: %s", cs, cr, x.Outcome), rp)
+		return
+	}
+	if same && (h.sErr != nil || h.rErr != nil) {
+		res.Violate("rejected", "c08/auth", map[string]any{"position": "honest", "same_code": true}, fmt.Sprintf("honest pair with the same code %q on one session rejected: %v / %v", cs, h.sErr, h.rErr), rp)
+	}
+	if !same && (h.sErr == nil || h.rErr == nil) {
+		res.Violate("accepted", "c08/auth", map[string]any{"position": "honest", "same_code": false, "codes": near}, fmt.Sprintf("different join codes %q vs %q on one session: sender %v receiver %v (nil = accepted)", cs, cr, h.sErr, h.rErr), rp)
+	}
+}
+
 func checkTamper(dir, m string) {
 	var h *honestRun
 	x := vrt.Run(cfg(), nil, func() { h = honestTampered(dir, m) })
@@ -455,11 +477,18 @@ func main() {
 					Scenario Scenario `json:"scenario"`
 					Tamper   string   `json:"tamper"`
 					Mut      string   `json:"mut"`
+					Honest   bool     `json:"honest"`
+					CodeS    string   `json:"code_s"`
+					CodeR    string   `json:"code_r"`
 				} `json:"replay"`
 			} `json:"violation"`
 		}
 		if err := vlib.ReadJSON(vlib.F.Replay, &art); err != nil {
 			res.InfraError("%v", err)
+			res.Finish()
+		}
+		if art.Violation.Replay.Honest {
+			checkHonest(art.Violation.Replay.CodeS, art.Violation.Replay.CodeR)
 			res.Finish()
 		}
 		if art.Violation.Replay.Tamper != "" {
@@ -475,28 +504,18 @@ func main() {
 	var states, trans int64
 	n := 0
 	// (1) honest pairs: accept iff same code (same session by construction)
-	for _, cs := range []string{code, otherCode, ""} {
-		for _, cr := range []string{code, otherCode, ""} {
+	// join codes: two unrelated ones, the empty one, and near misses of the first (letter case,
+	// surrounding white space, a look-alike character) - "the same join code" means the same string
+	codes := []string{code, otherCode, "", strings.ToLower(code), " " + code, code + " ", code + "\n", "\t" + code, strings.Replace(code, "-", "_", 1), code + code}
+	for _, cs := range codes {
+		for _, cr := range codes {
 			n++
 			if !vlib.Mine(n) {
 				continue
 			}
-			var h *honestRun
-			x := vrt.Run(cfg(), nil, func() { h = honest(cs, cr) })
 			trans++
-			res.Eval()
 			res.Nontrivial(fmt.Sprintf("honest|%s|%s", cs, cr))
-			same := cs == cr
-			if x.Outcome != "ok" {
-				res.Violate("hang", "c08/auth", map[string]any{"position": "honest", "outcome": x.Outcome}, fmt.Sprintf("honest %q/%q: %s", cs, cr, x.Outcome), nil)
-				continue
-			}
-			if same && (h.sErr != nil || h.rErr != nil) {
-				res.Violate("rejected", "c08/auth", map[string]any{"position": "honest", "same_code": true}, fmt.Sprintf("honest pair with the same code %q on one session rejected: %v / %v", cs, h.sErr, h.rErr), nil)
-			}
-			if !same && (h.sErr == nil || h.rErr == nil) {
-				res.Violate("accepted", "c08/auth", map[string]any{"position": "honest", "same_code": false}, fmt.Sprintf("codes %q vs %q: sender %v receiver %v", cs, cr, h.sErr, h.rErr), nil)
-			}
+			checkHonest(cs, cr)
 		}
 	}
 	// (1b) an honest session whose authentication messages are altered in flight: every single-bit
